@@ -1225,10 +1225,21 @@ def run_case(case, root):
                             ok = False
                             cnt('faultcommit:' + errname(e))
                             tm0.abort()
-                        fired = sum(1 for e in env.rec.events if e[0] == 'fault') > nfault
+                        fevs = [e for e in env.rec.events if e[0] == 'fault'][nfault:]
+                        fired = bool(fevs)
                         if fired:
                             faulted[0] = True
                             cnt('fault-fired')
+                        if fired and not ok and fevs[0][2] in ('remove', 'rmdir'):
+                            # the commit had failed for another reason (conflict) and the injected fault hit a REMOVE of
+                            # the abort's own clean-up: a failing abort is not among the property's failure points —
+                            # clear what it could not remove, not judged
+                            cnt('fault:hit-cleanup-of-abort')
+                            for k in [k for k in env.scan()[0] if k not in files]:
+                                try:
+                                    os.remove(env.storage.fshelper.getBlobFilename(p64(k[0]), p64(k[1])))
+                                except OSError:
+                                    pass
                         guard()
                         F0.clear()
                         if ok:
@@ -1402,7 +1413,10 @@ def run_case(case, root):
                             objs[slot] = at(r0, slot)
                         for slot in C['bytes']:
                             if slot not in objs and slot in slot_oid:
-                                objs[slot] = c0.get(p64(slot_oid[slot]))
+                                try:
+                                    objs[slot] = c0.get(p64(slot_oid[slot]))
+                                except Exception:
+                                    pass                    # un-created / packed away meanwhile
                         reset_view()
                         boundary('reopen')
                     elif kind == 'failpack':
@@ -1428,6 +1442,7 @@ def run_case(case, root):
                             env.clear_pack_failure()
                         if env.lines and env.lines[-1].startswith('pack '):  # it returned: nothing to pack
                             packed_to[0] = max(packed_to[0], int(env.lines[-1].split()[1]))
+                        reset_view()                        # (the abort above gave connection 0 a new snapshot)
                         boundary('pack-failed')             # nothing was packed: nothing may have changed
                     elif kind == 'pack':
                         if not txns or V['dirty'] or V['created'] or V['root']:
